@@ -22,7 +22,7 @@ from __future__ import annotations
 
 import ast
 import itertools as _it
-from typing import Any, Dict, List, Optional, Tuple
+from typing import Any, Dict, List, Optional, Set, Tuple
 
 from asl.absint import UNKNOWN, Machine
 from asl.cfg import Node, cfg_of
@@ -30,7 +30,7 @@ from asl.loader import AnalysisError, norm
 from .common import make_resolver
 from .tooltables import EXC_NAMES, ToolOps
 
-STATE_KEYS = ("@heap", "@itpos", "@lists", "@objects", "@seqs", "@seqpos", "@trace", "@gens")
+STATE_KEYS = ("@heap", "@itpos", "@lists", "@objects", "@seqs", "@seqpos", "@trace", "@gens", "@uses")
 GLOBAL_STATE = STATE_KEYS
 FRAME_KEYS = ("@pos", "@callvals", "@comp", "@counts", "@handling")
 
@@ -543,7 +543,10 @@ def _oracle(items: List[Any], keyf, ops_seq: List[Tuple], taken: Optional[List[i
     gb = _it.groupby(src, keyf) if keyf is not None else _it.groupby(src)
     groups: List[Any] = []
     out: List[Any] = []
+    ended: Set[Tuple] = set()
+    beyond = False  # some handle was asked again after it had answered "exhausted" (outside C05's "up to exhaustion")
     for op in ops_seq:
+        beyond = beyond or op in ended
         if op[0] == "G":
             try:
                 k, g = next(gb)
@@ -551,13 +554,16 @@ def _oracle(items: List[Any], keyf, ops_seq: List[Tuple], taken: Optional[List[i
                 out.append(("key", k))
             except StopIteration:
                 out.append("exhausted")
+                ended.add(op)
         else:
             try:
                 out.append(("item", next(groups[op[1]])))
             except StopIteration:
                 out.append("exhausted")
+                ended.add(op)
     if taken is not None:
         taken.append(src.taken)
+        taken.append(None if beyond else src.ends)
     return out
 
 
@@ -625,9 +631,15 @@ def groupby_histories(ctx, rid: str, depth: int = 4, consumption: bool = False) 
                 if UNKNOWN in _flat(got):
                     undecided += 1  # a value the model cannot follow (e.g. a container it does not know): not decided
                     continue
-                if consumption and got == want and new.get("@itpos", {}).get(0, 0) != want_taken[0]:
-                    got = (got, f"{new.get('@itpos', {}).get(0, 0)} items taken from the source")
-                    want = (want, f"{want_taken[0]} items taken from the source")
+                if consumption and got == want:
+                    n_taken = new.get("@itpos", {}).get(0, 0)
+                    n_ends = sum(1 for e in new.get("@trace", ()) if e[:2] == ("poll", 0)) - n_taken
+                    if n_taken != want_taken[0]:
+                        got = (got, f"{n_taken} items taken from the source")
+                        want = (want, f"{want_taken[0]} items taken from the source")
+                    elif want_taken[1] is not None and n_ends != want_taken[1]:
+                        got = (got, f"the exhausted source was asked {n_ends} time(s)")
+                        want = (want, f"the exhausted source was asked {want_taken[1]} time(s)")
                 if got != want:
                     bad += 1
                     if bad <= 3:
@@ -715,14 +727,24 @@ def tee_histories(ctx, rid: str, depth: int = 5, consumption: bool = False) -> N
                     src = _Src(items)
                     its = _it.tee(src, n_children)
                     want: Any = None
+                    ended: Set[int] = set()
+                    beyond = False  # a child was asked again after it had ended (outside C05's "up to exhaustion")
                     for j in hist:
+                        beyond = beyond or j in ended
                         try:
                             want = ("item", next(its[j]))
                         except StopIteration:
                             want = "exhausted"
-                    if consumption and got == want and env.get("@itpos", {}).get(0, 0) != src.taken:
-                        got = (got, f"{env.get('@itpos', {}).get(0, 0)} items taken from the source")
-                        want = (want, f"{src.taken} items taken from the source")
+                            ended.add(j)
+                    if consumption and got == want:
+                        n_taken = env.get("@itpos", {}).get(0, 0)
+                        n_ends = sum(1 for e in env.get("@trace", ()) if e[:2] == ("poll", 0)) - n_taken
+                        if n_taken != src.taken:
+                            got = (got, f"{n_taken} items taken from the source")
+                            want = (want, f"{src.taken} items taken from the source")
+                        elif not beyond and n_ends != src.ends:
+                            got = (got, f"the exhausted source was asked {n_ends} time(s)")
+                            want = (want, f"the exhausted source was asked {src.ends} time(s)")
                     if got != want:
                         bad += 1
                         if bad <= 3:
@@ -740,7 +762,7 @@ def tee_histories(ctx, rid: str, depth: int = 5, consumption: bool = False) -> N
 
 # ---------------------------------------------------------------------------------- merge
 def _merge_cells():
-    from .tooltables import Cell, _Src, _Sym, _observe
+    from .tooltables import Cell, _Calls, _Src, _Sym, _observe
     import heapq as _hq
     runs = {0: [()], 1: [(0,), (1,)], 2: [(0, 0), (0, 1), (1, 1)], 3: [(0, 0, 0), (0, 0, 1), (0, 1, 1), (1, 1, 1)]}
     shapes = []
@@ -758,7 +780,7 @@ def _merge_cells():
                         rk[("key", ("item", k, i))] = x
 
                 def oracle(srcs_ranks=srcs_ranks, reverse=reverse, with_key=with_key):
-                    calls: List[Any] = []
+                    calls: List[Any] = _Calls()
                     srcs = [_Src([_Sym(("item", k, i), rank=x, eq_by_rank=True) for i, x in enumerate(r)]) for k, r in enumerate(srcs_ranks)]
 
                     def key(x):
@@ -774,18 +796,217 @@ def _merge_cells():
                            {k: len(r) for k, r in enumerate(srcs_ranks)}, oracle, fns={"K": lambda a: ("key", a[0])}, ranks=rk)
 
 
-def merge_table(ctx, rid: str, fields=None) -> None:
+def merge_table(ctx, rid: str, fields=None, faults: bool = False) -> None:
     from . import tooltables as T
-    ctx.rule(rid, "heapq.merge as a table: 1-3 sorted sources of 0-3 items in two ranks (ties included), both directions, with / without "
-                  "key: the items come out in the order heapq.merge produces (equal items: the earlier source first, in either "
-                  "direction) — the heap entries are model objects ordered by the class's own __lt__ / __eq__")
+    if not faults:
+        ctx.rule(rid, "heapq.merge as a table: 1-3 sorted sources of 0-3 items in two ranks (ties included), both directions, with / without "
+                      "key: the items come out in the order heapq.merge produces (equal items: the earlier source first, in either "
+                      "direction) — the heap entries are model objects ordered by the class's own __lt__ / __eq__")
 
     def factory(ctx_, u, cell):
         ops = make_ops(ctx_, u, cell.lengths, cell.items, cell.fns)
         ops.ranks = cell.ranks or {}
         return ops
 
-    T._tables(ctx, rid, [("heapq.merge", _merge_cells)], "asyncgen", "merge_table_cells", fields or T.ITEMS_AND_END, make_ops=factory)
+    T._tables(ctx, rid, [("heapq.merge", _merge_cells)], "asyncgen", "fault_base_cells" if faults else "merge_table_cells",
+              fields or T.ITEMS_AND_END, make_ops=factory, faults=faults)
+
+
+def _released(ops, state, k: int, n_items: int) -> bool:
+    """source k has been closed, or was run to exhaustion (asked once more after its last item)"""
+    tr = state.get("@trace", ())
+    if ("close", ("IT", k)) in tr:
+        return True
+    asked = sum(1 for e in tr if e[:2] == ("poll", k))
+    return state.get("@itpos", {}).get(k, 0) >= n_items and asked > n_items
+
+
+def release_histories(ctx, rid: str, depth: int = 4) -> None:
+    """C04 for the handle classes, as histories on the object model: when an operation on the handle raises because the
+    source or the user's key failed, the source is closed by the time the failure has surfaced; when the last child of a
+    tee is done - closed (started or not) or exhausted - the source is closed or exhausted."""
+    ctx.rule(rid, "handles as operation histories with failures: groupby - on every source of 1-3 items, for every failing request to "
+                  "the source / failing call of the key and every sequence of operations that runs into it, the source is closed "
+                  "when the failure surfaces; chain - likewise for two sources (all of them closed or exhausted); tee - after "
+                  "every sequence of next / close operations on the children that leaves every child done, the source is closed "
+                  "or exhausted")
+    bad: Dict[str, int] = {"groupby": 0, "tee": 0, "chain": 0}
+    classes: Dict[Tuple[str, str], List[Any]] = {}
+
+    def fail(kind_: str, unit, text: str, cls: str = "") -> None:
+        # one report per *kind of history* that fails (the first such history is the witness, the others are counted)
+        bad[kind_] += 1
+        entry = classes.setdefault((kind_, cls), [unit, text, 0])
+        entry[2] += 1
+
+    # ---- groupby
+    gb_cls = ctx.pkg.cls("itertools.GroupBy")
+    grouper_next = ctx.unit("itertools._Grouper.__anext__")
+    gb_next = ctx.unit("itertools.GroupBy.__anext__")
+    gb_init = gb_cls.methods["__init__"]
+    ip = gb_init.param_names()
+    for n in (1, 2, 3):
+        for pattern in list(_it.product("ab", repeat=n)):
+            items = [("item", 0, i) for i in range(n)]
+            keymap = {items[i]: ("v", pattern[i]) for i in range(n)}
+            faults = [("poll", 0, j) for j in range(1, n + 2)] + [("call", "K", j) for j in range(1, n + 1)]
+            for fault in faults:
+                ops = make_ops(ctx, gb_init, {0: n}, fns={"K": (lambda a, keymap=keymap: keymap[a[0]])})
+                ops.fault_at = fault
+                state0: Dict[str, Any] = {"@heap": {}, "@lists": {}, "@trace": ()}
+                gb = ops._alloc(state0, gb_cls.fq)
+                binds = {ip[0]: gb, ip[1]: ("IT", 0)}
+                if len(ip) > 2:
+                    binds[ip[2]] = ("FN", "K")
+                kind, _v, state1 = run_method(ctx, ops, gb_init, state0, binds)
+                if kind != "return":
+                    ctx.count("release_undecided")
+                    continue
+                what = (f"request {fault[2]} to the source fails" if fault[0] == "poll" else f"call {fault[2]} of the key fails")
+                label0 = f"groupby(<{n} items with keys {''.join(pattern)}>), {what}"
+
+                def explore(state, groups, history):
+                    if len(history) >= depth:
+                        return
+                    for op in [("G",)] + [("I", k) for k in range(len(groups))]:
+                        if op[0] == "G":
+                            kind, val, new = run_method(ctx, ops, gb_next, state, {gb_next.param_names()[0]: gb})
+                        else:
+                            kind, val, new = run_method(ctx, ops, grouper_next, state, {grouper_next.param_names()[0]: groups[op[1]]})
+                        hist = history + [op]
+                        if kind is None:
+                            ctx.count("release_undecided")
+                            continue
+                        if kind == "raise" and val == "Boom":
+                            ctx.count("release_histories")
+                            if not _released(ops, new, 0, n):
+                                text = " ".join("G" if o[0] == "G" else f"I{o[1]}" for o in hist)
+                                fail("groupby", gb_next,
+                                     f"[{label0}; operations {text}] the failure surfaces and the source is neither closed nor "
+                                     "exhausted", "groupby raises because its source or key failed: the source stays open")
+                            continue
+                        if kind == "raise":
+                            continue
+                        new_groups = groups
+                        if op[0] == "G":
+                            rv = ops.resolve(val, new)
+                            if isinstance(rv, tuple) and len(rv) == 2 and ops._is_obj(rv[1]):
+                                new_groups = groups + [rv[1]]
+                        explore(new, new_groups, hist)
+
+                explore(state1, [], [])
+
+    # ---- tee: every child done => the source released
+    tee_cls = ctx.pkg.cls("itertools.Tee")
+    init = tee_cls.methods["__init__"]
+    tp = init.param_names()
+    peer = ctx.unit("itertools.tee_peer")
+    for n_children in (2, 3):
+        for n_items in (0, 1, 2):
+            ops = make_ops(ctx, init, {0: n_items})
+            state0 = {"@heap": {}, "@lists": {}, "@trace": (), "@gens": {}}
+            tee = ops._alloc(state0, tee_cls.fq)
+            binds = {tp[0]: tee, tp[1]: ("IT", 0), tp[2]: n_children}
+            for extra in tp[3:]:
+                binds[extra] = None
+            kind, _v, state1 = run_method(ctx, ops, init, state0, binds)
+            children = None
+            if kind == "return":
+                for _fld, val in state1["@heap"][tee[1]][1].items():
+                    el = ops._elements(val, state1)
+                    if el is not None and len(el) == n_children and all(isinstance(x, tuple) and x[:1] == ("GEN",) for x in el):
+                        children = el
+            if children is None:
+                ctx.count("release_undecided")
+                continue
+            label0 = f"tee(<{n_items} items>, n={n_children})"
+
+            def explore_tee(state, history, done):
+                if len(history) >= depth + 1:
+                    return
+                for k in range(n_children):
+                    if k in done:
+                        continue
+                    for what in ("next", "close"):
+                        env = dict(state)
+                        env.pop("@undecided", None)
+                        if what == "next":
+                            val = ops._resume(children[k], env)
+                            finished = isinstance(val, tuple) and val[:1] == ("@raise",)
+                        else:
+                            ops._close_gen(children[k], env)
+                            val, finished = None, True
+                        if env.get("@undecided") or UNKNOWN in _flat(val):
+                            ctx.count("release_undecided")
+                            continue
+                        hist = history + [f"{what} {k}"]
+                        now_done = done | {k} if finished else done
+                        new = {k_: env[k_] for k_ in STATE_KEYS if k_ in env}
+                        if len(now_done) == n_children:
+                            ctx.count("release_histories")
+                            if not _released(ops, new, 0, n_items):
+                                started = {int(h.split()[1]) for h in hist if h.startswith("next")}
+                                unstarted = [int(h.split()[1]) for i_, h in enumerate(hist) if h.startswith("close")
+                                             and int(h.split()[1]) not in {int(x.split()[1]) for x in hist[:i_] if x.startswith("next")}]
+                                fail("tee", peer, f"[{label0}; operations {', '.join(hist)}] every child is done and the source is "
+                                     "neither closed nor exhausted",
+                                     "every child of a tee is done, one of them closed before it was ever advanced: the source stays open"
+                                     if unstarted else "every child of a tee is done (each was advanced before): the source stays open")
+                            continue
+                        explore_tee(new, hist, now_done)
+
+            explore_tee({k_: state1[k_] for k_ in STATE_KEYS if k_ in state1}, [], frozenset())
+
+    # ---- chain: a failing source
+    chain_cls = ctx.pkg.cls("itertools.chain")
+    c_init = chain_cls.methods["__init__"]
+    c_next = chain_cls.methods["__anext__"]
+    cp = c_init.param_names()
+    va = c_init.node.args.vararg.arg if c_init.node.args.vararg else None
+    for lens in ((1, 1), (2, 1), (0, 1), (1, 0)):
+        faults = [("poll", k, j) for k in (0, 1) for j in range(1, lens[k] + 2)]
+        for fault in faults:
+            ops = make_ops(ctx, c_init, {0: lens[0], 1: lens[1]})
+            ops.fault_at = fault
+            state0 = {"@heap": {}, "@lists": {}, "@trace": (), "@gens": {}}
+            ch = ops._alloc(state0, chain_cls.fq)
+            binds = {cp[0]: ch}
+            if va is None:
+                ctx.count("release_undecided")
+                continue
+            binds[va] = ("SEQ", (("IT", 0), ("IT", 1)))
+            for kwo, d in zip(c_init.node.args.kwonlyargs, c_init.node.args.kw_defaults):
+                binds[kwo.arg] = ops.ev.eval(d, {}) if d is not None else None
+            kind, _v, state = run_method(ctx, ops, c_init, state0, binds)
+            if kind != "return":
+                ctx.count("release_undecided")
+                continue
+            label0 = f"chain(<{lens[0]} items>, <{lens[1]} items>), request {fault[2]} to source {fault[1]} fails"
+            for step in range(1, sum(lens) + 3):
+                kind, val, state = run_method(ctx, ops, c_next, state, {c_next.param_names()[0]: ch})
+                if kind is None:
+                    ctx.count("release_undecided")
+                    break
+                rv = ops.resolve(val, state) if kind == "return" else None
+                if isinstance(rv, tuple) and rv[:1] == ("@coro",):
+                    rv = rv[1]
+                failed = (kind == "raise" and val == "Boom") or (isinstance(rv, tuple) and rv[:2] == ("@raise", "Boom"))
+                ended = kind == "raise" or (isinstance(rv, tuple) and rv[:1] == ("@raise",))
+                if failed:
+                    ctx.count("release_histories")
+                    open_ = [k for k in (0, 1) if not _released(ops, state, k, lens[k])]
+                    if open_:
+                        fail("chain", c_next, f"[{label0}; step {step}] the failure surfaces and source(s) {open_} are neither closed "
+                             "nor exhausted", "chain raises because a source failed: the sources it owns stay open")
+                if ended or UNKNOWN in _flat(rv):
+                    if not ended:
+                        ctx.count("release_undecided")
+                    break
+    for (kind_, cls), (unit, text, n_) in sorted(classes.items(), key=lambda kv: kv[0]):
+        ctx.fail(rid, unit, cls, text, witness=f"{n_} failing histor{'y' if n_ == 1 else 'ies'} of this kind")
+    for kind_, n_bad in bad.items():
+        if not n_bad:
+            ctx.ok(rid, kind_, f"{kind_}: the source(s) are released in every history explored")
 
 
 def tee_construction(ctx, rid: str, P: Dict[str, str], retention: bool = False) -> Optional[bool]:
